@@ -438,7 +438,9 @@ class LineOnlyReceiver(protocol.Protocol):
                 return self.lineLengthExceeded(line)
             else:
                 self.lineReceived(line)
-        if len(self._buffer) > self.MAX_LENGTH:
+        # The buffer may end with the start of a delimiter, which does not
+        # count towards the line's length.
+        if len(self._buffer) >= self.MAX_LENGTH + len(self.delimiter):
             return self.lineLengthExceeded(self._buffer)
 
     def lineReceived(self, line):
